@@ -4,6 +4,26 @@ verus! {
 /// the hash a BuildHasher `hb` computes for `q`: hashing is a deterministic function of the builder and the key
 pub uninterp spec fn spec_hash<Q: ?Sized, S>(hb: S, q: &Q) -> u64;
 
+/// the user's `Eq` between a lookup key `q` (borrowed form) and a stored key `k`: `q == k.borrow()`; deterministic
+pub uninterp spec fn key_eq<Q: ?Sized, K>(q: &Q, k: &K) -> bool;
+
+/// `Borrow`'s documented contract ("Hash and Eq on the borrowed form must match those for the key type") together with
+/// `Hash`'s ("k1 == k2 => hash(k1) == hash(k2)"): keys that compare equal hash alike under one builder
+#[verifier::external_body]
+pub proof fn axiom_hash_consistent<Q: ?Sized, K, S>(hb: S)
+    ensures forall|q: &Q, k: &K| #[trigger] key_eq::<Q, K>(q, k) ==> spec_hash::<Q, S>(hb, q) == spec_hash::<K, S>(hb, k)
+{ }
+
+/// `Eq` is an equivalence (its documented contract): two stored keys that both equal a lookup key equal each other,
+/// and `==` on the key type itself is reflexive and symmetric
+#[verifier::external_body]
+pub proof fn axiom_key_eq_equivalence<Q: ?Sized, K>()
+    ensures forall|q: &Q, a: &K, b: &K| #[trigger] key_eq::<Q, K>(q, a) && #[trigger] key_eq::<Q, K>(q, b) ==> key_eq::<K, K>(a, b),
+            forall|q: &Q, a: &K, b: &K| #[trigger] key_eq::<Q, K>(q, a) && #[trigger] key_eq::<K, K>(a, b) ==> key_eq::<Q, K>(q, b),
+            forall|a: &K, b: &K| #[trigger] key_eq::<K, K>(a, b) == key_eq::<K, K>(b, a),
+            forall|a: &K| #[trigger] key_eq::<K, K>(a, a),
+{ }
+
 /// a cloned BuildHasher is assumed to hash like the original (Clone for HashMap relies on it)
 #[verifier::external_body]
 pub proof fn axiom_cloned_builder<K, S: Clone>(a: S, b: S)
